@@ -34,7 +34,7 @@ func init() {
 		Check:           c04Check,
 		DistinctClasses: []string{"carrier"},
 		MinEvaluations:  func(tier string) int64 { return 5000 },
-		RequiredCounts:  []string{"positions_checked", "tokens_checked", "error_locations_checked"},
+		RequiredCounts:  []string{"positions_checked", "tokens_checked", "error_locations_checked", "load_errors", "loaded_multi_source", "validation_error_locations"},
 	})
 }
 
@@ -44,14 +44,27 @@ type srcInfo struct {
 	li     *ref.LineIndex
 	starts map[int]ref.Tok // reference token starts
 	lexOK  bool
+	lexWhy string // why the reference lexer gave no frame of reference
 	runes  []rune
 }
 
 func newSrcInfo(s *ast.Source) *srcInfo {
 	si := &srcInfo{src: s, li: ref.NewLineIndex(s.Input), starts: map[int]ref.Tok{}, runes: []rune(s.Input)}
+	// the frame of reference for positions: the October 2021 lexer, except that (a) a block string closed by more than three
+	// quotes is read as the library reads it on purpose (finding F-C03-03, C03's business) and (b) characters above U+FFFF
+	// are source characters, as in the later drafts the library follows (Lex abstains on them)
 	rr := ref.Lex(s.Input)
+	if rr.Abstain == "non-bmp-source-character" || (rr.Abstain == "" && strings.Contains(s.Input, `""""`)) {
+		if fr := ref.LexFrame(s.Input); fr.Abstain == "" && !fr.Failed {
+			rr = fr
+		}
+	}
 	if rr.Abstain == "" && !rr.Failed {
 		si.lexOK = true
+	} else if rr.Abstain != "" {
+		si.lexWhy = "abstain:" + rr.Abstain
+	} else {
+		si.lexWhy = "fails:" + rr.Reason
 	}
 	for _, t := range rr.Toks {
 		si.starts[t.Start] = t
@@ -434,6 +447,9 @@ func c04Run(x *core.Ctx) {
 		case 0, 1:
 			d := gen.QueryDoc(r, &gen.QOpts{MaxDepth: 3, Hostile: i%8 < 4, FragVars: true, VarDirs: true, KeywordNames: i%3 == 0})
 			src := rn.RenderDoc(d)
+			if i%16 == 4 {
+				src = c04CloseRun(r, src)
+			}
 			c := core.NewCase("query", "src", src)
 			x.Do(c, func() { c04Check(x, c) })
 			// a broken variant: error locations
@@ -443,6 +459,9 @@ func c04Run(x *core.Ctx) {
 		case 2:
 			d := gen.SchemaDoc(r, &gen.SOpts{Hostile: i%8 < 4, KeywordNames: i%3 == 0})
 			src := rn.RenderSDoc(d)
+			if i%16 == 2 {
+				src = c04CloseRun(r, src)
+			}
 			c := core.NewCase("schema", "src", src)
 			x.Do(c, func() { c04Check(x, c) })
 			toks := rn.SDocTokens(d)
@@ -452,6 +471,27 @@ func c04Run(x *core.Ctx) {
 			c04Typed(x, r, rn, i)
 		}
 	}
+}
+
+// c04CloseRun lengthens the closing quotes of one block string of the text to a run of four or five.
+func c04CloseRun(r *core.Rand, src string) string {
+	rr := ref.Lex(src)
+	if rr.Abstain != "" || rr.Failed {
+		return src
+	}
+	var blocks []ref.Tok
+	for _, t := range rr.Toks {
+		if t.Kind == ref.KBlock {
+			blocks = append(blocks, t)
+		}
+	}
+	if len(blocks) == 0 {
+		return src
+	}
+	t := blocks[r.Intn(len(blocks))]
+	rs := []rune(src)
+	extra := strings.Repeat(`"`, 1+r.Intn(2))
+	return string(rs[:t.End-3]) + extra + string(rs[t.End-3:])
 }
 
 // mutateTokens applies one random single-token mutation (delete, duplicate, swap, substitute).
